@@ -23,7 +23,7 @@ var tableFuncs = map[string]LGFunction{
 func tableSort(L *LState) int {
 	tbl := L.CheckTable(1)
 	sorter := lValueArraySorter{L, nil, tbl.array[:tbl.Len()]}
-	if L.GetTop() != 1 {
+	if L.Get(2) != LNil { // an explicit nil means no comparator, as a missing argument does
 		sorter.Fn = L.CheckFunction(2)
 	}
 	sort.Sort(sorter)
@@ -42,7 +42,7 @@ func tableMaxN(L *LState) int {
 
 func tableRemove(L *LState) int {
 	tbl := L.CheckTable(1)
-	if L.GetTop() == 1 {
+	if L.Get(2) == LNil { // no position, or an explicit nil: the last element
 		L.Push(tbl.Remove(-1))
 	} else {
 		L.Push(tbl.Remove(L.CheckInt(2)))
